@@ -1,8 +1,11 @@
 """C10: connection-level check (see DESIGN section 6 / C10): scenario families on the real endpoints, recorded traces
 validated against RSocket.tla by TLC; design-level model checking of the same monitors in RSocketMC.tla."""
-from . import conn, families, mc
+from . import conn, families, mc, leasemodel
 
 
 def run(v):
     mc.run_for(v, 'C10')
+    # an interaction given up while its request waits for a lease: what was queued behind the request (its CANCEL) must follow it, or the
+    # responder keeps the stream for ever (Lease.tla, AppActsOnHeldRequest)
+    leasemodel.check_acts(v, 'C10')
     conn.check(v, 'C10', families.FAMILIES['C10'])
